@@ -21,6 +21,7 @@ RULE = ("one abstract graph (C05 families, n<=8 so that the exact oracle applies
 ASSUMPTIONS = ["exact distance from the C05 backtracking oracle on my own BFS metric",
                "an explicitly stored zero in a sparse adjacency matrix is 'no edge' (it is the same matrix)",
                "disconnected input: bracketing the distance for any one of the components tied for largest is accepted"]
+REQUIRED_NOTES = ["dense-small-component cases"]
 TECHNIQUE = "runtime monitoring: metamorphic monitor over representations of one graph + exact oracle; warning/exception sensors for the degraded path"
 
 from ..graphforms import FORMS, FILLS, represent      # noqa: E402
@@ -86,7 +87,39 @@ def large_case(ctx, k, rng):
     ctx.mark_nontrivial("large", fam, n, fA, fill, A.tolist() if n <= 130 else [fam, n, int(A.sum())])
 
 
+def dense_small_case(ctx, k, rng):
+    """the largest component is sparse (a path, a tree), a smaller one is dense (a clique with far more edges than the whole graph has
+    vertices): "largest" means most vertices. Against the one-point graph the exact distance is diam(largest)/2."""
+    big = int(rng.integers(9, 22)); small = int(rng.integers(max(5, big - 4), big))
+    L = OM.path(big) if rng.random() < 0.5 else OM.random_tree(rng, big)
+    parts = [L, OM.complete(small)]
+    if rng.random() < 0.4:
+        parts.append(OM.complete(int(rng.integers(2, small + 1))))
+    n = sum(len(p) for p in parts)
+    A = np.zeros((n, n), dtype=int); o = 0
+    for p in parts:
+        A[o:o + len(p), o:o + len(p)] = p; o += len(p)
+    A, _ = OM.relabel(rng, A)
+    diam = max(map(max, OM.bfs_metric(L)))
+    fA, fill = str(rng.choice(FORMS)), str(rng.choice(["upper", "sym", "mixed"]))
+    point = [[[0]], np.zeros((1, 1), dtype=int), sps.csr_matrix((1, 1))][int(rng.integers(0, 3))]
+    ctx.begin(k, "disconnected/dense-small", {"components": [len(p) for p in parts], "largest_diameter": diam, "form": [fA, fill], "A": A})
+    ctx.note("dense-small-component cases")
+    try:
+        swap = rng.random() < 0.5
+        ra = represent(rng, A, fA, fill)
+        (lb, ub), msgs = call(ctx, *((point, ra) if swap else (ra, point)), seed=int(rng.integers(0, 2 ** 31)))
+        warned = any("disconnected" in m for m in msgs)
+        ctx.check("disconnected: warning, no exception, bracket for a largest component", warned and float(lb) <= diam / 2 <= float(ub), warned=warned,
+                  lower=lb, upper=ub, true_for_candidates=[diam / 2], components=[len(p) for p in parts])
+    except Exception as e:
+        ctx.exception("disconnected: warning, no exception, bracket for a largest component", e, components=[len(p) for p in parts])
+    ctx.mark_nontrivial("dense-small", [len(p) for p in parts], A.tolist())
+
+
 def run_case(ctx, k, rng):
+    if k % 19 == 6:
+        return dense_small_case(ctx, k, rng)
     scen = int(rng.integers(0, 10))
     if rng.random() < 0.06:
         return large_case(ctx, k, rng)
